@@ -845,6 +845,8 @@ class Evaluator(object):
         items = None
         if isinstance(it, Tup):
             items = it.items
+        elif isinstance(it, Mat) and len(it.shape) >= 1 and it.shape[0] <= 64:
+            items = [self.mat_index(it, [C(i_)], st) for i_ in range(it.shape[0])]
         elif isinstance(it, CallV) and getattr(it, 'arity', None):
             # the result of an opaque repository call whose every return is a tuple of one fixed length: its items by position
             items = _callv_items(it)
@@ -1368,6 +1370,11 @@ class Evaluator(object):
         if len(e.generators) == 1 and not e.generators[0].ifs:
             g = e.generators[0]
             it = self.eval(g.iter, env, func)
+            if isinstance(it, Mat) and len(it.shape) >= 1 and it.shape[0] <= 64:
+                # iterating an array walks its first axis: rows of a matrix (arrays themselves), elements of a vector
+                it = Tup([self.mat_index(it, [C(i_)], e) for i_ in range(it.shape[0])])
+            elif isinstance(it, CallV) and getattr(it, 'arity', None):
+                it = Tup(_callv_items(it))
             if isinstance(it, Tup):
                 out = []
                 for x in it.items:
@@ -1747,6 +1754,11 @@ class Evaluator(object):
                     for x in a[0].items:
                         r = self.cand(r, self.truth(x)) if short == 'all' else self.cor(r, self.truth(x))
                     return r
+                if short in ('min', 'max') and len(a) >= 2 and num and not kwargs:
+                    frs_ = [x.as_fraction() for x in a]
+                    if all(fr_ is not None for fr_ in frs_):
+                        # constants fold (the first of equal values is returned, as the builtin does - the values are equal anyway)
+                        return C(min(frs_) if short == 'min' else max(frs_))
                 if short == 'divmod' and len(a) == 2 and num:
                     fa, fb = a[0].as_fraction(), a[1].as_fraction()
                     if fa is not None and fb is not None and fb != 0:
